@@ -5,7 +5,7 @@ CFG = dict(
     lean_modules=["ElysModel.Props.C10", "ElysModel.Props.C10Src"],
     pre_cmds=[GO2LEAN],
     props_files=["ElysModel/Props/C10.lean", "ElysModel/Props/C10Src.lean"],
-    runs=[dict(mode="c10", n_quick=120, n_thorough=600, shards_quick=8, shards_thorough=14, env_quick={"VERIF_HISTS": "1"}, env_thorough={"VERIF_HISTS": "3"})],
+    runs=[dict(mode="c10", n_quick=120, n_thorough=600, shards_quick=14, shards_thorough=14, env_quick={"VERIF_HISTS": "1"}, env_thorough={"VERIF_HISTS": "3"})],
     rule="probe rounds on the real app through real blocks: 16 leveraged-LP and perpetual positions per world (both sides, leverage 1.5-10, owners' stop losses incl. 0), a price move, "
          "governance forcing a safety factor to within 1e-6 of some position's predicted health, then a third party's MsgClosePositions naming random positions in random lists; "
          "an evaluation is one (position, block) case or one open / non-owner close; non-trivial = distinct case lines",
